@@ -1595,3 +1595,58 @@ func ruleCreateTruncates(r *Report) {
 		}
 	}
 }
+
+// R-reader-buffer-minimum: the vendored buffered reader takes its buffer from outside and has lost the minimum size that
+// bufio.NewReaderSize enforces. With an empty buffer ReadByte panics ("tried to fill full buffer"); the buffer size is
+// an ordinary option (ReadBufferSizeBytes(0), an index loader's zero value), and in a database session the panic is
+// raised in the flusher goroutine or inside Open and terminates the process.
+func ruleReaderBufferMinimum(r *Report) {
+	const rule = "reader-buffer-minimum"
+	r.Rule(rule, 1, "recordio.NewReaderBuf never installs a buffer shorter than a positive minimum: the length of the given buffer is compared with a positive constant and a too small one is replaced")
+	fn := r.NeedFunc(rule, "recordio.NewReaderBuf")
+	if fn == nil {
+		return
+	}
+	key := rule + "/recordio.NewReaderBuf"
+	ok := false
+	for _, b := range liveBlocks(fn) {
+		cnd, _, _, _, _, is := effCond(b)
+		if !is {
+			continue
+		}
+		bo, isB := cnd.(*ssa.BinOp)
+		if !isB {
+			continue
+		}
+		lenOfParam := func(v ssa.Value) bool {
+			c, isC := v.(*ssa.Call)
+			if !isC {
+				return false
+			}
+			bi, isBi := c.Call.Value.(*ssa.Builtin)
+			return isBi && bi.Name() == "len" && paramOrigin(c.Call.Args[0]) != nil
+		}
+		posConst := func(v ssa.Value) bool { c, isC := constInt(v); return isC && c > 0 }
+		if (lenOfParam(bo.X) && posConst(bo.Y)) || (lenOfParam(bo.Y) && posConst(bo.X)) {
+			// and a fresh buffer is made somewhere
+			eachInstr(fn, func(s Site) {
+				if _, isM := s.Instr.(*ssa.MakeSlice); isM {
+					ok = true
+				}
+				// make with a constant size is an array allocation that is sliced
+				if al, isA := s.Instr.(*ssa.Alloc); isA {
+					if pt, isP := al.Type().(*types.Pointer); isP {
+						if _, isArr := pt.Elem().Underlying().(*types.Array); isArr {
+							ok = true
+						}
+					}
+				}
+			})
+		}
+	}
+	if ok {
+		r.OK(rule, key, fn.Pos(), "a too small buffer is replaced by one of the minimum size")
+	} else {
+		r.Bad(rule, key, fn.Pos(), "the reader uses whatever buffer it is given: with ReadBufferSizeBytes(0) (or an index loader left at its zero value) the first ReadByte panics with \"bufio: tried to fill full buffer\" — in the flusher goroutine at the first flush, or inside Open when tables exist — and the process terminates")
+	}
+}
